@@ -55,6 +55,7 @@ type VC struct {
 	callees       map[string]bool
 	intMode       bool
 	ringMode      bool
+	afterEntry    bool
 	privateEntry  []string // storage references of by-value aggregate parameters
 	allocRefs     map[string]bool // terms used as the reference of an object allocated by this function
 	slice         sliceInfo
@@ -475,6 +476,30 @@ func (vc *VC) mergeHeaps(conds []string, hs []*Heap) *Heap {
 func (vc *VC) symVal(prefix string, t types.Type, h *Heap) *Val {
 	l := layoutOf(t)
 	if l.Kind == KAgg {
+		if vc.afterEntry && h != nil && h == vc.cur.heap {
+			// an aggregate value that appears during execution (a call result, an unboxed value ...): a new object
+			// with unconstrained contents. (Picking "some existing object" instead would subject its reference
+			// fields to the facts about the entry heap, e.g. the closed-entry-heap axiom, and contradict a callee
+			// postcondition such as fresh(result.f).)
+			r := vc.allocObj(h, nil)
+			old := map[string]string{}
+			for c := range l.Comps() {
+				old[c] = h.m[c]
+			}
+			vc.havocObj(h, r, l.Comps())
+			// objects known by name existed before: their contents are unchanged
+			if len(vc.knownRefs) <= 10 {
+				for _, c := range sortedKeys(l.Comps()) {
+					for _, kr := range vc.knownRefs {
+						if vc.rowFacts < 400 {
+							vc.rowFacts++
+							vc.assume(sEq(sel(h.m[c], kr), sel(old[c], kr)))
+						}
+					}
+				}
+			}
+			return &Val{K: KAgg, T: t, C: []string{r, bvLitI(64, 0)}, H: h.clone()}
+		}
 		r := vc.fresh(prefix+".r", "Int")
 		vc.assume(sAnd(app("<", "0", r), app("<", r, h.alloc)))
 		return &Val{K: KAgg, T: t, C: []string{r, bvLitI(64, 0)}, H: h}
